@@ -1,6 +1,6 @@
 ---------------------------- MODULE Trace_Harmonic ----------------------------
 (* Validates observations of the harmonic / gravity / magnetic classes (C19) against Harmonic.tla.  *)
-(* Lattice records (idx, co, rd, cap, val, mag) are recomputed exactly.  Law records carry          *)
+(* Lattice records (idx, co, rd, cap, val, mag, grv, ngl) are recomputed exactly.  Law records carry *)
 (* residuals reduced by the driver to integers in units of eps * scale (eps = 2^-52, scale = the      *)
 (* magnitude bound of the quantity, stated per law below); tolerances, guards and decisions are here. *)
 EXTENDS Harmonic, TraceKit
@@ -39,31 +39,61 @@ RdOK(r) ==
 CapOK(r) ==
   /\ \A fn \in Fns : r[fn] = Avail(fn, r.req, r.h0)
   /\ r.gravity_all = ~Avail("gravity", r.req, r.h0)
+  \* "If an unsupported function is invoked, it will return NaNs": every output, also the vector components
+  /\ \A fn \in {"w", "v", "disturbance", "tgrad", "anomaly"} : r[fn \o "_all"] = ~Avail(fn, r.req, r.h0)
   /\ r.capsall = (Cardinality(Prim(r.req, r.h0)) = 6)
 
 \* a lattice number is the pair <<k, e>>: value 2^16 = k + e 2^-30
 LatOK(s, i, expect) ==
   LET k == s[2 * i - 1]  e == s[2 * i] IN k = expect /\ e <= TolLat * (1 + Abs(k) \div 65536) /\ -e <= TolLat * (1 + Abs(k) \div 65536)
+LatSeq(s, x) == Len(s) = 2 * Len(x) /\ \A i \in 1..Len(x) : LatOK(s, i, x[i])
+\* every constructor form of every class must produce the object that the general form documents (CtorOutcome, then the lattice
+\* value); the driver expresses the coefficients in the normalisation r.wn, which must be the one the call denotes
 ValOK(r) ==
-  LET V == ValNum(r, r.pt, r.j)  G == GradNum(r, r.pt, r.j, r.ja)
+  LET V == ValNum(r, r.pt, r.j)  G == GradNum(r, r.pt, r.j, r.ja)  o == CtorOutcome(r)
       four(s) == Len(s) = 8 /\ LatOK(s, 1, V) /\ LatOK(s, 2, G[1]) /\ LatOK(s, 3, G[2]) /\ LatOK(s, 4, G[3])
-  IN r.out = "ok" /\ four(r.d) /\ four(r.cg) /\ Len(r.v) = 2 /\ LatOK(r.v, 1, V) /\ Len(r.cn) = 2 /\ LatOK(r.cn, 1, V)
+  IN /\ r.wn = NormEff(r.norm, HarmNormDefault) /\ (r.ct = "simple" => SimpleApplicable(r)) /\ r.ct \in {"simple", "general"}
+     /\ r.out = o
+     /\ (o = "ok" => four(r.d) /\ four(r.cg) /\ Len(r.v) = 2 /\ LatOK(r.v, 1, V) /\ Len(r.cn) = 2 /\ LatOK(r.cn, 1, V))
 MagOK(r) ==
-  IF ~LimitsValid(r.Nmax, r.Mmax) THEN r.out = "throw"
+  IF MagOutcome(r) = "throw" THEN r.out = "throw"
   ELSE
-    LET seg == Segment(r)  B == MagB(r, seg)  Bt == MagBt(r, seg)
+    LET g == MagEff(r)  seg == Segment(g)  B == MagB(g, seg)  Bt == MagBt(g, seg)
         \* named rule KnotRate: exactly at an interior knot the rate of either adjacent segment is admitted
-        knot == r.tq % (4 * r.dt0) = 0 /\ seg >= 1 /\ r.tq \div (4 * r.dt0) = seg
-        Bt2 == IF knot THEN MagBt(r, seg - 1) ELSE Bt
+        knot == g.tq % (4 * g.dt0) = 0 /\ seg >= 1 /\ g.tq \div (4 * g.dt0) = seg
+        Bt2 == IF knot THEN MagBt(g, seg - 1) ELSE Bt
         six(s) == /\ Len(s) = 12 /\ LatOK(s, 1, B[1]) /\ LatOK(s, 2, B[2]) /\ LatOK(s, 3, B[3])
                   /\ \/ LatOK(s, 4, Bt[1]) /\ LatOK(s, 5, Bt[2]) /\ LatOK(s, 6, Bt[3])
                      \/ LatOK(s, 4, Bt2[1]) /\ LatOK(s, 5, Bt2[2]) /\ LatOK(s, 6, Bt2[3])
-    IN r.out = "ok" /\ six(r.b) /\ six(r.cb) /\ r.deg = MagDegree(r) /\ r.ord = MagOrder(r)
+    IN /\ r.wn = MagNorm(r)
+       /\ r.out = "ok" /\ six(r.b) /\ six(r.cb) /\ r.deg = MagDegree(g) /\ r.ord = MagOrder(g)
+       \* inspectors: the documented values for absent keywords
+       /\ r.desc = Meta(r.meta, MagKeyDefault, "Description") /\ r.date = Meta(r.meta, MagKeyDefault, "ReleaseDate")
+       /\ r.name = (IF "Name" \in DOMAIN r.meta THEN r.meta.Name ELSE r.fname)
+\* gravity model lattice: a synthetic file over a non-rotating spherical reference body (Harmonic.tla section 6)
+GrvLOK(r) ==
+  IF GrvOutcome(r) = "throw" THEN r.out = "throw"
+  ELSE
+    LET x == GrvExp(r) IN
+    /\ r.wn = GrvNorm(r) /\ r.out = "ok" /\ r.deg = GrvDegree(r) /\ r.ord = GrvOrder(r)
+    /\ \A f \in {"pv", "pw", "pu", "pt1", "pt", "gg", "gd", "gn", "ga", "cv", "cw", "cg", "cd", "ct1", "ct", "cn", "ca", "gx", "cx"} : LatSeq(r[f], x[f])
+    /\ r.desc = Meta(r.meta, GrvKeyDefault, "Description") /\ r.date = Meta(r.meta, GrvKeyDefault, "ReleaseDate")
+    /\ r.name = (IF "Name" \in DOMAIN r.meta THEN r.meta.Name ELSE r.fname)
+    /\ r.insp                                                        \* the inspectors return the values of the file
+NglOK(r) ==
+  /\ r.out = "ok"
+  /\ (r.n >= 0 => LatSeq(r.jn, <<NgJn(r.n)>>)) /\ r.jnfin                           \* named rule NoSuchCoefficient for n < 0
+  /\ LatSeq(r.u, Four(NgU(r), NgUg(r))) /\ LatSeq(r.v0, Four(NgU(r), NgUg(r))) /\ LatSeq(r.phi, <<0, 0, 0>>)
+  /\ LatSeq(r.sg, <<NgSurf(r), NgSurf(r), NgSurf(r)>>)                               \* SurfaceGravity(lat), gamma_e, gamma_p
+  /\ LatSeq(r.gl, <<NgU(r), 0, ToENU(MPT[r.p], NgUg(r))[3]>>)                         \* Gravity(lat, h): U, gamma_y, gamma_z
+  /\ LatSeq(r.cst, <<NgU0(r), 0, 0, 0, 0, 0>>)                                        \* U0, J2, f, f*, FlatteningToJ2, J2ToFlattening
 
 (* ---------------------------------------------------------------- law records *)
 \* sh: a random harmonic object (1, 2 or 3 coefficient sets, either normalisation, truncated or not) at a random point
 ShOK(r) ==
   LET n == Deg(r) IN
+  \* every constructor form (r.ct, r.dn = normalisation argument left out, r.asg) of a legal argument tuple gives an object
+  /\ r.out = "ok" /\ r.cob = r.cin           \* Coefficients(), Coefficients1/2(): the sets as given to the constructor
   /\ AllLE(r, {"dv", "dvv", "cv", "cv0", "cnv", "cv2", "cv3"}, TolV(n))        \* value = defining sum; circle = direct
   /\ AllLE(r, {"dg", "cg", "cg2"}, TolG(n))                                       \* gradient = gradient of defining sum
   /\ r.cunt                                                                       \* "gradx, etc., will not be touched"
@@ -72,11 +102,22 @@ ShOK(r) ==
   /\ (r.fdT < 2000000000 /\ r.fdR < 2000000000 =>
         r.fdr >= 0 /\ r.fdr \div 64 <= (r.fdT \div 64) + TolV(n) * (r.fdR \div 64 + 1) + TolG(n))
 
+InSeq(s, x) == \E i \in 1..Len(s) : s[i] = x
+\* r.omit lists the optional keywords that the synthetic metadata file does not contain; the sampler may only leave a keyword out
+\* when the value of the model equals the default the documentation gives (the oracle works with the model's values)
+MagOmitOK(r) ==
+  /\ (InSeq(r.omit, "Normalization") => (r.full <=> MagKeyDefault.Normalization = "full"))
+  /\ (InSeq(r.omit, "NumModels") => r.nm = MagKeyDefault.NumModels) /\ (InSeq(r.omit, "NumConstants") => r.nc = MagKeyDefault.NumConstants)
+  /\ (InSeq(r.omit, "DeltaEpoch") => r.dt1 \/ r.nm = 1)                   \* "default 1 (only relevant for NumModels > 1)"
+NameOK(r, def) ==
+  /\ r.desc = (IF InSeq(r.omit, "Description") THEN def.Description ELSE "synthetic")
+  /\ r.date = (IF InSeq(r.omit, "ReleaseDate") THEN def.ReleaseDate ELSE "2026-01-01")
+  /\ r.name = (IF InSeq(r.omit, "Name") THEN r.fname ELSE "synth-" \o r.fname)    \* "may be overridden by the model file"
 MagrOK(r) ==
   IF ~LimitsValid(r.Nmax, r.Mmax) THEN r.out = "throw"
   ELSE
     LET lim == Limits(r.Nmax, r.Mmax)  dg == MaxOver(r.Ns, lim[1], 1, -1)  od == MaxOver(r.Ms, lim[2], 1, -1)  n == Max(dg, 0) IN
-    /\ r.out = "ok" /\ r.deg = dg /\ r.ord = od /\ r.meta
+    /\ r.out = "ok" /\ r.deg = dg /\ r.ord = od /\ r.meta /\ MagOmitOK(r) /\ NameOK(r, MagKeyDefault)
     \* field and secular variation implied by the file's coefficients, geocentric and east/north/up; circle = point
     /\ AllLE(r, {"dbg", "dbgt", "dbe", "dbet", "dc", "dct", "dcg", "dcgt"}, TolG(n))
     /\ r.b3eq /\ r.c3eq /\ r.cinsp /\ r.rng
@@ -88,6 +129,8 @@ GrvVOK(r) ==
   ELSE
     LET lim == Limits(r.Nmax, r.Mmax)  n == r.nx IN
     /\ r.out = "ok" /\ r.meta /\ r.cinsp /\ r.ueq
+    /\ (InSeq(r.omit, "Normalization") => (r.full <=> GrvKeyDefault.Normalization = "full"))
+    /\ (InSeq(r.omit, "HeightOffset") => r.z0) /\ (InSeq(r.omit, "CorrectionMultiplier") => r.cm1) /\ NameOK(r, GrvKeyDefault)
     /\ r.nx = Min(r.N, lim[1])
     /\ r.deg = Max(Min(r.N, lim[1]), Min(r.Nc, lim[1])) /\ r.ord = Max(Min(r.M, lim[2]), Max(Min(r.Mc, lim[2]), 0))
     /\ AllLE(r, {"dV", "cV", "cW", "cGW"}, TolV(n)) /\ AllLE(r, {"dVg", "cVg", "cWg", "cG"}, TolG(n))
@@ -95,7 +138,17 @@ GrvVOK(r) ==
 GrvTOK(r) ==
   \* T = W - U and delta = g - gamma; scale = |W| + |U| + magnitude bound of the disturbing sum (its own round-off)
   /\ AllLE(r, {"dT"}, TolV(r.nx)) /\ AllLE(r, {"dTg"}, TolG(r.nx))
+\* What is owed by every model, also of low degree (where T = W - U is excused by a recorded finding: the normal zonal terms
+\* above the model degree are not subtracted): T = V - GMref/R (1 - sum_{n = 2, 4, .. <= model degree} J_n (a/R)^n P_n(sin psi)) with
+\* the J_n of the reference ellipsoid, and its gradient; the rotation to east/north/up; circle = point; the geoid height
+\* from this T.  Scale = |V| + GMref/R + the magnitude bound of the disturbing sum.
+GrvZOK(r) ==
+  /\ AllLE(r, {"dTz"}, TolV(r.nx)) /\ AllLE(r, {"dTgz"}, TolG(r.nx))
   /\ AllLE(r, {"cT", "cT1", "cDT"}, TolV(r.nx)) /\ AllLE(r, {"dD", "cTg", "cD"}, TolG(r.nx))
+  /\ AllLE(r, {"dNz"}, TolV(Max(r.nx, Max(r.Nc, 0))))
+\* a circle created with a capability request: every function the request allows returns bit for bit what the circle with ALL
+\* returns, every other function returns NaNs in all its outputs ("If an unsupported function is invoked, it will return NaNs")
+GrvCOK(r) == \A fn \in Fns : IF Avail(fn, r.req, r.h0) THEN r[fn \o "_eq"] ELSE r[fn \o "_nan"]
 GrvGOK(r) == AllLE(r, {"dTv", "dDT"}, TolV(r.nx))
 GrvNOK(r) ==
   /\ AllLE(r, {"aD", "aX", "aE", "cA"}, TolG(r.nx)) /\ AllLE(r, {"dN"}, TolV(Max(r.nx, Max(r.Nc, 0))))
@@ -110,21 +163,27 @@ NgOK(r) ==
   /\ AllLE(r, {"xg"}, TolFDO)                                                     \* gamma = grad U
   \* harmonic outside (guard: the bound on the third derivatives holds for small flattening only)
   /\ (r.lf <= -3 => r.lap >= 0 /\ r.lap \div 64 <= (r.lapT \div 64) + TolNG * (r.lapR \div 64 + 1))
-NgzOK(r) == r.jfin /\ AllLE(r, {"zV"}, TolNG)                                     \* V0 = GM/r (1 - sum J_n (a/r)^n P_n)
+\* V0 = - GM/r sum_{n >= 0} J_n (a/r)^n P_n with the library's J_n from n = 0 (J_0 = -1); "J_n = 0 if n is odd", exactly
+NgzOK(r) == r.jfin /\ AllLE(r, {"zV"}, TolNG) /\ AllLE(r, {"j0"}, 0) /\ AllLE(r, {"jodd"}, 0)
 
+\* "A global instantiation of NormalGravity for the WGS84 / GRS80 ellipsoid" = the object constructed from the documented constants
+NgsOK(r) == r.aeq /\ r.gmeq /\ r.omeq /\ r.feq /\ r.ceq /\ r.ueq
 Obligation(r) ==
   CASE r.e = "idx" -> IdxOK(r) [] r.e = "co" -> CoOK(r) [] r.e = "rd" -> RdOK(r) [] r.e = "cap" -> CapOK(r)
-    [] r.e = "val" -> ValOK(r) [] r.e = "mag" -> MagOK(r)
+    [] r.e = "val" -> ValOK(r) [] r.e = "mag" -> MagOK(r) [] r.e = "grv" -> GrvLOK(r) [] r.e = "ngl" -> NglOK(r)
     [] r.e = "sh" -> ShOK(r) [] r.e = "magr" -> MagrOK(r) [] r.e = "mcinsp" -> r.aeq
     [] r.e = "grvV" -> GrvVOK(r) [] r.e = "grvT" -> GrvTOK(r) [] r.e = "grvG" -> GrvGOK(r) [] r.e = "grvN" -> GrvNOK(r)
-    [] r.e = "ng" -> NgOK(r) [] r.e = "ngz" -> NgzOK(r)
+    [] r.e = "grvZ" -> GrvZOK(r) [] r.e = "grvC" -> GrvCOK(r)
+    [] r.e = "ng" -> NgOK(r) [] r.e = "ngz" -> NgzOK(r) [] r.e = "ngs" -> NgsOK(r)
     [] OTHER -> FALSE
 
 Expected(r) ==
   CASE r.e = "co" -> <<CoeffOutcome(r.N, r.nmx, r.mmx, r.csz, r.ssz)>>
     [] r.e = "rd" -> ReadSpec(r.N0, r.M0, r.N, r.M, r.tr)
-    [] r.e = "val" -> <<ValNum(r, r.pt, r.j), GradNum(r, r.pt, r.j, r.ja)>>
-    [] r.e = "mag" -> IF LimitsValid(r.Nmax, r.Mmax) THEN <<MagB(r, Segment(r)), MagBt(r, Segment(r)), MagDegree(r), MagOrder(r)>> ELSE <<"throw">>
+    [] r.e = "val" -> <<CtorOutcome(r), ValNum(r, r.pt, r.j), GradNum(r, r.pt, r.j, r.ja)>>
+    [] r.e = "mag" -> IF MagOutcome(r) = "ok" THEN LET g == MagEff(r) IN <<MagB(g, Segment(g)), MagBt(g, Segment(g)), MagDegree(g), MagOrder(g)>> ELSE <<"throw">>
+    [] r.e = "grv" -> IF GrvOutcome(r) = "ok" THEN <<GrvDegree(r), GrvOrder(r), GrvExp(r)>> ELSE <<"throw">>
+    [] r.e = "ngl" -> <<NgJn(r.n), NgU(r), NgUg(r), NgSurf(r)>>
     [] OTHER -> <<>>
 
 Init == l = 1 /\ KitInit
